@@ -5,7 +5,7 @@ import random
 
 from . import engine
 from .common import ToolError, seed, log, NCPU
-from .engine import Session, model_check, generate, steps_of, transition_steps, TransitionBatch
+from .engine import Session, model_check, generate, steps_of, transition_steps, TransitionBatch, require_outcomes
 from .replay import ALL
 
 REGISTRY = {}
@@ -137,6 +137,7 @@ def c04(chk, tier):
                      invariants=["PrintHist"], on_value=onb, workers=1)
     finally:
         ses.close()
+    require_outcomes(chk, ['seal/ok', 'seal/err/MessageLimitReached'])
     chk.cov["exhaustive"] = True
     chk.cov["rule"] = ("every (start counter in the carry-boundary set x latch x form x AEAD x base-nonce pattern) seal "
                        "transition of the bounded model, replayed on hook-built contexts; distinct = distinct "
@@ -200,6 +201,7 @@ def c05(chk, tier):
         traces(chk, "seq", 20 if thorough else 2, "random adversarial schedule", nsteps=2000 if thorough else 400)
     finally:
         ses.close()
+    require_outcomes(chk, ['open/ok', 'open/err/OpenError', 'open/err/MessageLimitReached'])
     chk.cov["rule"] = ("every open transition of the bounded model (delivery kind x source x receiver position in the "
                        "carry-boundary set x latch x form x AEAD) as one implementation test, plus random walks from "
                        "position 0; distinct = distinct (aead, delivery kind, source, pre-counter, latch, form, outcome)")
@@ -264,6 +266,7 @@ def c06(chk, tier):
         traces(chk, "seq", 10 if thorough else 1, "random tampering", nsteps=1500 if thorough else 300)
     finally:
         ses.close()
+    require_outcomes(chk, ['open/ok', 'open/err/OpenError'])
     chk.notes["positive_controls_accepted"] = accepted_controls[0]
     chk.cov["exhaustive"] = True
     chk.cov["rule"] = ("every single-bit flip of ciphertext, tag and aad, every truncation length, extensions by 1 and 16 at "
@@ -384,6 +387,7 @@ def c02(chk, tier):
                nsessions=8 if thorough else 4, nsteps=30, long=thorough)
     finally:
         ses.close()
+    require_outcomes(chk, ['setup_s/ok', 'setup_r/ok', 'seal/ok', 'seal/panic', 'open/ok', 'export/ok', 'single_shot_seal/ok', 'single_shot_open/ok'])
     chk.cov["rule"] = ("every transition of the bounded setup model for all 48 suites x 4 modes (setup_s, setup_r, seal, "
                        "open, export, single-shot seal/open; both API forms), each an implementation test in which "
                        "every returned byte must equal the oracle's evaluation of the specification's term; "
@@ -452,7 +456,7 @@ def c01(chk, tier):
                               casekey=tr_key("c01"))
         # message sizes straddling the AEAD block sizes, raw contexts, in-order delivery only
         for aead in (1, 2, 3):
-            for lv in (range(8) if thorough else (rot(list(range(8)), aead),)):
+            for lv in (range(12) if thorough else (0, 4, 8)):
                 batch = TransitionBatch(ses, label="sizes aead=%d lenvar=%d" % (aead, lv))
 
                 def on(tr, batch=batch, aead=aead, lv=lv):
@@ -468,9 +472,10 @@ def c01(chk, tier):
                long=thorough)
     finally:
         ses.close()
+    require_outcomes(chk, ['setup_s/ok', 'setup_r/ok', 'seal/ok', 'open/ok', 'open/err/OpenError'])
     chk.cov["rule"] = ("every transition of the matching-pair setup model (suite x mode x both forms on both sides, <= 3 "
                        "messages delivered in and out of order) plus in-order sessions over plaintext/aad sizes "
-                       "0,1,15,16,17,32,33,64; distinct = distinct (suite, mode, call, form, outcome, arguments)")
+                       "0,1,15,16,17,32,33,64,255,256,257,4097; distinct = distinct (suite, mode, call, form, outcome, arguments)")
 
 
 # ------------------------------------------------------------------------------------------- C07
@@ -515,6 +520,7 @@ def c07(chk, tier):
                nsessions=8, nsteps=12, mismatch=1.0)
     finally:
         ses.close()
+    require_outcomes(chk, ['setup_r/ok', 'open/ok', 'open/err/OpenError', 'export/ok'])
     chk.cov["rule"] = ("sender x receiver pairs where the receiver differs in exactly one component (other info / psk / psk_id "
                        "value, other mode with the same PSK data, other KDF, other AEAD, other recipient key, other "
                        "encapsulated key, other expected sender key, bytes moved between info and psk_id, every single bit "
@@ -556,6 +562,7 @@ def c08(chk, tier):
                               want=want, casekey=tr_key("c08p"))
     finally:
         ses.close()
+    require_outcomes(chk, ['setup_s/ok', 'setup_r/ok', 'open/ok', 'open/err/OpenError', 'export/ok'])
     chk.cov["rule"] = ("4 KEMs x {Psk, Auth, AuthPsk}: honest sender, impostors (foreign key pair, public half only, "
                        "non-authenticated mode, wrong PSK incl. every single PSK bit) against a receiver expecting pkS / the "
                        "PSK; distinct = distinct (suite, mode, impostor and receiver arguments, call, outcome)")
@@ -570,10 +577,11 @@ def c10(chk, tier):
         "by computation that each gives an all-zero X25519 output and that the negative examples do not",
         "pattern mode: for keys that are not of small order only 'setup succeeds' is compared, nothing about bytes"]
     over = setup_over(KemSet="{32}", KdfSet="{1, 2, 3}" if thorough else kset([rot([1, 2, 3], 0)]),
-                      AeadSet="{1, 2, 3, 65535}" if thorough else kset([rot([1, 2, 3, 65535], 0)]),
+                      AeadSet="{1, 2, 3, 65535}" if thorough else kset([rot([1, 2, 3], 0), 65535]),
                       Vals='"leaf"', Shape='"one"', BadPkR='"all"',
                       Perturb='{"none", "encsmall", "pkssmall", "encother"}', FormMenu='{"alloc", "detached"}')
-    shots = dict(over, ShotsOnly="TRUE", ShotDl='"msg"', MaxShots="1")
+    shots = dict(over, ShotsOnly="TRUE", ShotDl='"msg"', MaxShots="2",
+                 AeadSet="{1, 2, 3}" if thorough else kset([rot([1, 2, 3], 0)]))
     model_check(chk, "MC_Setup", "MC_Setup.cfg", "mc_smallorder", over, invariants=["Binding"], properties=[])
     model_check(chk, "MC_Setup", "MC_Setup.cfg", "mc_smallorder_shot", shots, invariants=[], properties=[])
     ses = Session(chk)
@@ -586,6 +594,7 @@ def c10(chk, tier):
         c10_kem_level(chk, ses, thorough)
     finally:
         ses.close()
+    require_outcomes(chk, ['setup_s/err/EncapError', 'setup_r/err/DecapError', 'setup_s/ok', 'setup_r/ok', 'single_shot_seal/err/EncapError', 'single_shot_open/err/DecapError'])
     chk.cov["exhaustive"] = True
     chk.cov["rule"] = ("the 14 small-order X25519 encodings (and 5 other raw 32-byte strings incl. non-canonical ones as "
                        "negatives) as recipient key on the sender side, as encapsulated key and as sender identity key on the "
@@ -633,6 +642,7 @@ def c14(chk, tier):
                               casekey=tr_key("c14s"))
     finally:
         ses.close()
+    require_outcomes(chk, ['seal/ok', 'open/ok', 'single_shot_seal/ok', 'single_shot_open/ok', 'single_shot_open/err/OpenError', 'single_shot_open/err/DecapError', 'single_shot_seal/err/EncapError'])
     chk.cov["rule"] = ("single-shot seal/open (both forms) next to setup + seal/open with the identical RNG script and split, "
                        "twin senders sealing the same message in the allocating and the detached form; success and failure "
                        "paths (small-order recipient / encapsulated key, wrong recipient key, wrong info, flipped ciphertext, "
@@ -697,6 +707,7 @@ def c11(chk, tier):
                               casekey=tr_key("c11"))
     finally:
         ses.close()
+    require_outcomes(chk, ['export/ok', 'export/err/KdfOutputTooLong', 'seal/panic', 'open/panic'])
     chk.cov["rule"] = ("exports for exporter-context classes x lengths {0,1,16,Nh-1,Nh,Nh+1,255Nh-1,255Nh,255Nh+1,65535,65536,70000} "
                        "x 3 KDFs x both roles x every interleaving with <=1-2 seals/opens/refusals incl. the latched state "
                        "(raw contexts, exact), and on real setups of both roles for all modes (pattern); export-only suites: "
